@@ -229,6 +229,18 @@ func (w *World) callMods(c *ssa.CallCommon) map[string]int {
 		if con := w.contracts[key]; con != nil {
 			for _, cl := range con.Clauses {
 				if cl.Kind == "modifies" {
+					if strings.HasPrefix(cl.Key, "@") {
+						// slice parameter by name: find its position among the contract's params
+						for i, pn := range con.Params {
+							if pn == cl.Key[1:] && i < len(c.Args) {
+								if sl, ok := types.Unalias(c.Args[i].Type()).Underlying().(*types.Slice); ok {
+									k, _ := w.sliceKey(sl.Elem())
+									out[k] = 2
+								}
+							}
+						}
+						continue
+					}
 					for _, k := range w.expandKey(cl.Key) {
 						if out[k] < 2 {
 							out[k] = 2
@@ -505,9 +517,27 @@ func (g *FnGen) applyContract(ci *calleeInfo, args []Term, fvs map[string]SVal, 
 	}
 	narrowed := map[string][]Expr{}
 	hasNarrow := map[string]bool{}
+	var arrRef [][2]string // slice heaps modified at one backing array only
 	if con != nil {
 		for _, cl := range con.Clauses {
 			if cl.Kind != "modifies" {
+				continue
+			}
+			if strings.HasPrefix(cl.Key, "@") {
+				// "modifies @s": the backing array of slice parameter s (generic callees: the key depends on the instantiation)
+				pv, ok := vars[cl.Key[1:]]
+				if !ok || pv.T == nil {
+					continue
+				}
+				sl, ok := types.Unalias(pv.T).Underlying().(*types.Slice)
+				if !ok {
+					continue
+				}
+				k, _ := w.sliceKey(sl.Elem())
+				if mods[k] == 0 {
+					mods[k] = 2
+				}
+				arrRef = append(arrRef, [2]string{k, fmt.Sprintf("(arr_%s %s)", pv.Sort, pv.S)})
 				continue
 			}
 			for _, k := range w.expandKey(cl.Key) {
@@ -536,6 +566,18 @@ func (g *FnGen) applyContract(ci *calleeInfo, args []Term, fvs map[string]SVal, 
 			continue
 		}
 		old := g.hget(st, k)
+		isArr := false
+		for _, ar := range arrRef {
+			if ar[0] == k && !hasNarrow[k] && ci.mods[k] == 0 {
+				es := srt[len("(Array Int ") : len(srt)-1]
+				nv := g.declare(g.fresh("hv:"+k), es)
+				st.heap[k] = g.define(g.fresh("H:"+k), Term{fmt.Sprintf("(store %s %s %s)", g.hget(st, k).S, ar[1], nv.S), srt})
+				isArr = true
+			}
+		}
+		if isArr {
+			continue
+		}
 		if hasNarrow[k] && len(narrowed[k]) > 0 && len(narrowed[k]) <= 3 && strings.HasPrefix(srt, "(Array Int ") {
 			// footprint given as a short list of objects: the new array is the old one updated at exactly those
 			// objects (quantifier-free frame). Values at objects allocated by the callee are left as they were,
@@ -575,6 +617,14 @@ func (g *FnGen) applyContract(ci *calleeInfo, args []Term, fvs map[string]SVal, 
 					g.emit(fmt.Sprintf("(assert (=> (<= %s %s) (= (select %s %s) (select %s %s))))", rt, allocBefore.S, nw.S, rt, old.S, rt))
 				}
 			}
+		}
+	}
+	if mods["alloc"] > 0 || mods["typ"] > 0 {
+		g.typClosed(st)
+	}
+	for _, k := range mk {
+		if strings.HasPrefix(k, "Mcard:") {
+			g.mapWF(st, k)
 		}
 	}
 	// results
